@@ -7,6 +7,9 @@ from .modes import judge_c08
 
 ID = "C08"
 LEVEL = "fault_enumeration"
+MIX = True  # a share of the decodes goes through the other front ends and byte sources (context.py)
+HISTORY = True  # every second shard first runs a prelude of earlier library use (history.py)
+OLANE = True  # two more shards run in an interpreter started with -O (runner.start_olane)
 RULE = (
     "malformed inputs in warn mode: every size field of hypothesis-generated messages x perturbations, value faults (1-3), cuts, "
     "suffixes, 1-3 mixed faults, arbitrary/mutated/wrong-type inputs over all types and command codes, and the exhaustive "
